@@ -14,7 +14,7 @@ from vlib.report import Report
 
 PID = "C12"
 
-TRUE_FORMS = ["if 1", "if 3>2", "ifdef DEFD", "ifndef UNDEFD", "ifb", "ifb ,", "ifb , ,", "ifnb x", "ifnb ,x",
+TRUE_FORMS = ["if 1", "if 3>2", "if -1", "if 0-5", "if DEFD-3", "if 255", "if 80000000h", "ifdef DEFD", "ifndef UNDEFD", "ifb", "ifb ,", "ifb , ,", "ifnb x", "ifnb ,x",
               "ifnb x,", "ifused USD", "ifnused UNUSD", "ifexist \"incx.inc\"", "ifnexist \"nofile.inc\"",
               "if DEFD=1", "ifnb ,,x"]
 FALSE_FORMS = ["if 0", "if 3<2", "ifdef UNDEFD", "ifndef DEFD", "ifb x", "ifb ,x", "ifb x,", "ifnb", "ifnb ,",
@@ -65,7 +65,9 @@ def render(beh, r, balance=True):
                 lines.append("\t" + r.choice(TRUE_FORMS if s["c"] else FALSE_FORMS))
             typestack.append(None)
         elif k == "ELSEIF":
-            lines.append("\telseif " + (r.choice(["1", "2>1", "DEFD"]) if s["c"] else r.choice(["0", "2<1", "DEFD-1"])))
+            # "true (i.e. not 0)": negative and large values are true as well
+            lines.append("\telseif " + (r.choice(["1", "2>1", "DEFD", "-1", "DEFD-3", "0-7", "1000", "80000000h"])
+                                         if s["c"] else r.choice(["0", "2<1", "DEFD-1", "USD-2", "5-5"])))
         elif k == "ELSE":
             lines.append("\t" + r.choice(["else", "elseif", "ELSE"]))
         elif k == "ENDIF":
